@@ -88,6 +88,15 @@ var c05Vars = []binding{{"a", vLong(3)}, {"b", vInt(4)}, {"c", vString("x")}, {"
 	{"g", vSpan(1500 * time.Millisecond)}, {"h", vInt(-9)}}
 var c05Map = map[string]string{"a": "A", "b": "", "c": "x/y", "name": "N", "if": "I"}
 
+// c05VarsRotated: the variable values moved on by n places among the names.
+func c05VarsRotated(n int) []binding {
+	out := make([]binding, len(c05Vars))
+	for i := range c05Vars {
+		out[i] = binding{c05Vars[i].Name, c05Vars[(i+n)%len(c05Vars)].V}
+	}
+	return out
+}
+
 // c05Instance wraps one reusable instance; run returns the observation for an input.
 type c05Instance struct {
 	kind string
@@ -98,6 +107,7 @@ type c05Instance struct {
 	tmpl *mustache.MustacheTemplate
 	vars *variables.VariableCollection
 	opts int
+	rot  int // calculator: how often the caller has replaced the variables of its collection (values rotated)
 	// set by run: the second pass over the rewound scanner object gave other tokens than the first
 	rescan string
 	// set by run: something the instance did contradicts what it did a moment earlier in the same feed
@@ -296,7 +306,20 @@ func (in *c05Instance) run(st c05Step) (obs string) {
 			if err == nil {
 				obs += " | " + exprTokensRepr(in.calc.ResultTokens())
 				if in.vars == nil {
-					in.vars = makeVars(c05Vars) // one collection per instance: values live on between feeds
+					in.vars = makeVars(c05VarsRotated(in.rot)) // one collection per instance: values live on between feeds
+				}
+				if st.Mode&16 != 0 {
+					// between two evaluations of this expression the caller takes every variable out of its collection and
+					// puts a new object of the same name in, the values moved on by one place
+					in.calc.EvaluateUsingVariablesAndFunctions(in.vars, userFunctions(st.Fn))
+					in.rot++
+					bs := c05VarsRotated(in.rot)
+					for _, b := range bs {
+						in.vars.RemoveByName(b.Name)
+					}
+					for _, b := range bs {
+						in.vars.Add(variables.NewVariable(b.Name, b.V.toVariant()))
+					}
 				}
 				v, e := in.calc.EvaluateUsingVariablesAndFunctions(in.vars, userFunctions(st.Fn))
 				obs += " | " + resultRepr(v, e)
@@ -320,6 +343,10 @@ func (in *c05Instance) run(st c05Step) (obs string) {
 			if st.Mode&1 != 0 {
 				in.mp.Clear()
 			}
+			if st.Mode&4 != 0 {
+				// a hand-made token list whose one value spells the text (plain text as far as its type says) comes first
+				in.mp.ParseTokens([]*tokenizers.Token{tokenizers.NewToken(tokenizers.Special, strings.Trim(st.Input, " \t\r\n"), 1, 1)})
+			}
 			err := in.mp.ParseString(st.Input)
 			obs = errRepr(err)
 			if err == nil {
@@ -331,6 +358,9 @@ func (in *c05Instance) run(st c05Step) (obs string) {
 				in.tmpl.SetAutoVariables(st.Mode&2 == 0)
 			} else {
 				in.tmpl.SetAutoVariables(true)
+			}
+			if st.Mode&4 != 0 {
+				in.tmpl.SetOriginalTokens([]*tokenizers.Token{tokenizers.NewToken(tokenizers.Special, strings.Trim(st.Input, " \t\r\n"), 1, 1)})
 			}
 			err := in.tmpl.SetTemplate(st.Input)
 			obs = errRepr(err)
@@ -373,6 +403,11 @@ func checkC05(c c05Case) *evid.Fail {
 		}
 		plain.Reopt = 0
 		fresh := newC05Instance(c.Kind, curOpts)
+		fresh.rot = reused.rot // the same variable values, in a collection that has no history
+		plain.Mode &^= 16
+		if c.Kind == "mustacheparser" || c.Kind == "template" {
+			plain.Mode &^= 4
+		}
 		want := fresh.run(plain)
 		if fresh.rescan != "" {
 			return evid.F("rescan-differs:"+c.Kind, "%s instance, input %q: %s; %s", c.Kind, st.Input, fresh.rescan, want)
@@ -484,6 +519,12 @@ func TestC05_Exhaustive(t *testing.T) {
 					if kind == "exprparser" {
 						c05Run(rec, c05Case{kind, o, []c05Step{{a, -1, 0, 0, 4, 0}, {b, -1, 0, 0, 4, 0}}})
 					}
+					if kind == "mustacheparser" || kind == "template" {
+						c05Run(rec, c05Case{kind, o, []c05Step{{a, -1, 0, 0, 4, 0}, {b, -1, 0, 0, 4 * (i % 2), 0}}})
+					}
+					if kind == "calculator" {
+						c05Run(rec, c05Case{kind, o, []c05Step{{a, -1, 0, 0, 16, 0}, {b, -1, 0, 1, 16 * (i % 2), 0}}})
+					}
 				}
 				if kind == "csv" || kind == "csv-custom" {
 					c05Run(rec, c05Case{kind, o, []c05Step{{a, -1, 0, 0, 0, 0}, {b, -1, 0, 0, 8, 0}}})
@@ -551,8 +592,11 @@ func TestC05_RapidSM(t *testing.T) {
 			if !isTok && rapid.IntRange(0, 5).Draw(rt, "clear") == 0 {
 				st.Mode = rapid.SampledFrom([]int{1, 3}).Draw(rt, "clearmode")
 			}
-			if kind == "exprparser" && rapid.IntRange(0, 3).Draw(rt, "viatokens") == 0 {
+			if (kind == "exprparser" || kind == "mustacheparser" || kind == "template") && rapid.IntRange(0, 3).Draw(rt, "viatokens") == 0 {
 				st.Mode |= 4
+			}
+			if kind == "calculator" && rapid.IntRange(0, 3).Draw(rt, "replacevars") == 0 {
+				st.Mode |= 16
 			}
 			if (kind == "csv" || kind == "csv-custom") && rapid.IntRange(0, 5).Draw(rt, "rejectedcfg") == 0 {
 				st.Mode = 8
